@@ -542,9 +542,22 @@ public:
             // in case of missing wait (for the sake of better testability & debuggability)
             if (!context().is_group_execution_cancelled())
                 cancel();
-            d1::wait(m_wait_vertex.get_context(), context());
-            if (!stack_unwinding_in_progress)
+            if (stack_unwinding_in_progress) {
+                // Another exception is already in flight: an exception of the group's own tasks must not leave the
+                // destructor as well (that would terminate the program); it cannot be reported any more.
+#if TBB_USE_EXCEPTIONS
+                try
+#endif
+                {
+                    d1::wait(m_wait_vertex.get_context(), context());
+                }
+#if TBB_USE_EXCEPTIONS
+                catch (...) {}
+#endif
+            } else {
+                d1::wait(m_wait_vertex.get_context(), context());
                 throw_exception(exception_id::missing_wait);
+            }
         }
     }
 
